@@ -530,7 +530,8 @@ package cache
 //@   props C18
 //@   opt locks
 //@   opt interior_ok
-//@   requires [not-held] e != nil && sync.rwheld[&e.mu] == 0
+//@   opt post_unguarded
+//@   requires [not-held@locks] e != nil && sync.rwheld[&e.mu] == 0
 //@   ensures [lock-balanced] forall m *sync.RWMutex :: { sync.rwheld[m] } sync.rwheld[m] == old(sync.rwheld[m])
 //@ func (*IdentityCache).notifyUpdated
 //@   props C18
@@ -546,7 +547,9 @@ package cache
 //@ func (*IdentityCache).CommitAsNeeded
 //@   props C18
 //@   opt locks
-//@   requires [not-held] i != nil && !sync.mheld[&i.mu]
+//@   opt post_unguarded
+//@   opt assume_pre=identity.(*Identity)
+//@   requires [not-held@locks] i != nil && !sync.mheld[&i.mu]
 //@   ensures [lock-balanced] forall m *sync.Mutex :: { sync.mheld[m] } sync.mheld[m] == old(sync.mheld[m])
 
 // ---- the lock file (C19): decision logic of opening a repository ---------------------------------------------
